@@ -101,6 +101,7 @@ func init() {
 		cells = append(cells, familyF1(th)...)
 		cells = append(cells, familyFName(th)...)
 		cells = append(cells, familyF3(th)...)
+		cells = append(cells, familyF3Pairs()...)
 		cells = append(cells, familyF4(th)...)
 		cells = append(cells, familyF5(th)...)
 		cells = append(cells, familyF6(th)...)
